@@ -44,6 +44,9 @@ const (
 	dmDir     = 0x80000000
 	dmSymlink = 0x02000000
 	dmLink    = 0x01000000
+	dmDevice  = 0x00800000
+	dmPipe    = 0x00200000
+	dmSocket  = 0x00100000
 
 	oread  = 0
 	owrite = 1
@@ -66,7 +69,8 @@ type Probe struct {
 	Base    []string `json:"base,omitempty"`    // plain names walked from the root fid to the starting fid (walk, create: a directory; rename: the object)
 	Prev    bool     `json:"prev,omitempty"`    // start from the fid kept by the previous probe instead, if there is one
 	Names   []string `json:"names"`             // attach: [aname]; walk: the elements (0..16); create: [name]; rename: [target]
-	Kind    string   `json:"kind,omitempty"`    // create: file, dir, symlink, link
+	Kind    string   `json:"kind,omitempty"`    // create: file, dir, symlink, link, pipe, device, socket
+	OMode   *uint8   `json:"omode,omitempty"`   // create: open mode of the Tcreate (default: OREAD for dir, ORDWR otherwise)
 	Ext     string   `json:"ext,omitempty"`     // create symlink: link text (inward)
 	LinkSrc []string `json:"linksrc,omitempty"` // create link: plain names from the root to the file linked to
 	Inplace bool     `json:"inplace,omitempty"` // walk: newfid == fid
@@ -502,6 +506,15 @@ func (s *sess) probe(i int, p *Probe) error {
 			}
 			defer s.clunk(fl)
 			perm, ext = dmLink|0o644, strconv.Itoa(int(fl))
+		case "pipe":
+			perm = dmPipe | 0o644
+		case "device":
+			perm, ext = dmDevice|0o644, "c 1 3"
+		case "socket":
+			perm = dmSocket | 0o644
+		}
+		if p.OMode != nil && p.Kind != "dir" {
+			mode = *p.OMode
 		}
 		req := &ref9p.Msg{Type: ref9p.Tcreate, Fid: fr, Name: p.Names[0], Perm: perm, Mode: mode, Ext: ext}
 		r, err = s.rpc(req)
